@@ -223,6 +223,12 @@ func (f *c15File) text(perm func(n int) []int) string {
 }
 
 var c15BenchNames = []string{"Encode", "Decode", "Sort/size=1", "Sort/size=10", "Sort/size=100", "Sort/size=1Ki", "Sort/size=1010", "Sort/size=8Ki", "Sort/size=8100", "Sort/size=1k", "Hash/size=1/align=0", "Hash/size=1/align=1", "Hash/size=10/align=0", "Walk", "Fib-8", "Fib-16", "Sort/size=1-8", "Sort/size=20.1.1", "Sort/size=3", "Sort/size=20", "Sort/size=v2", "Pair/a=1/b=23", "Pair/a=12/b=3", "Wide/a=AAAAAAAAAAAAAAAAAAAAAAAAAAAAAAAAAAAAAAAAAAAAAAAAAAAAAAAAAAAA/b=x", "Wide/a=y/b=BBBBBBBBBBBBBBBBBBBBBBBBBBBBBBBBBBBBBBBB", "Wide/a=AAAAAAAAAAAAAAAAAAAAAAAAAAAAAAAAAAAAAAAAAAAAAAAAAAAAAAAAAAAA/b=BBBBBBBBBBBBBBBBBBBBBBBBBBBBBBBBBBBBBBBB", "Pair/a=1k/b=1000", "Pair/a=1000/b=1k", "Pair/a=1k/b=1k", "Pair/a=1e3/b=1000", "Pair/a=2/b=1Ki", "Pair/a=2/b=1024"}
+var c15Families = [][]string{
+	{"Sort/size=20.1.1", "Sort/size=3", "Sort/size=20", "Sort/size=v2", "Sort/size=100"}, // numbers next to words with digits
+	{"Pair/a=1k/b=1000", "Pair/a=1000/b=1k", "Pair/a=1k/b=1k", "Pair/a=1e3/b=1000"},     // equal numbers, different spellings
+	{"Pair/a=1/b=23", "Pair/a=12/b=3", "Pair/a=1/b=2", "Pair/a=12/b=23"},                 // values that run together
+}
+
 var c15Units = []string{"ns/op", "B/op", "allocs/op", "MB/s", "widgets", "ns/frob", "ns/MB", "sec/MB", "MB/ns", "B/ns", "sec/op", "B/s"}
 
 // c15NaNRun: the generated input holds NaN measurements. Only single-column runs get them: comparing two samples
@@ -232,11 +238,15 @@ var c15NaNRun bool
 
 func c15GenFiles(T *sim.Tape) []*c15File {
 	nf := 1 + T.Intn(3, "nfiles")
-	c15NaNRun = nf == 1 && T.Intn(3, "nan-run") == 0
+	c15NaNRun = nf == 1 && T.Intn(2, "nan-run") == 0
 	nb := 1 + T.Intn(6, "nbench")
 	names := make([]string, nb)
 	for i := range names {
 		names[i] = sim.Pick(T, c15BenchNames, "bname")
+	}
+	if fam := T.Intn(10, "name-family"); fam < len(c15Families) {
+		// one run in ten per family: names that only matter together
+		names = append([]string(nil), c15Families[fam]...)
 	}
 	nunits := 1 + T.Intn(3, "nunits")
 	units := make([]string, nunits)
@@ -288,7 +298,7 @@ func c15GenFiles(T *sim.Tape) []*c15File {
 							v = float64(int(base)%7 + T.Intn(2, "exactvar")*T.Intn(2, "exactvar2"))
 						}
 						switch T.Intn(60, "odd") {
-						case 2:
+						case 2, 3, 4:
 							if c15NaNRun {
 								v = math.NaN() // a failed measurement; where it stands among the lines must not matter
 							}
